@@ -31,6 +31,7 @@ package main
 import (
 	"bytes"
 	"context"
+	"errors"
 	"fmt"
 	"os"
 	"sort"
@@ -302,6 +303,7 @@ func (w *worker) evalWrite(names []string, stream []*pconn.Item, plan pconn.Plan
 	var failed []*pconn.Item
 	var okOnFault = -1
 	transientOnly := !hasKind(plan, 'x') && !hasKind(plan, 'c')
+	spunAt := -1
 	for i, it := range stream {
 		w0 := w.wc.Writes
 		// every Send has its own context: a cancellation ends that one call, the
@@ -322,6 +324,9 @@ func (w *worker) evalWrite(names []string, stream []*pconn.Item, plan pconn.Plan
 				okOnFault = i
 			}
 		} else {
+			if errors.Is(err, pconn.ErrSpin) {
+				spunAt = i
+			}
 			failed = append(failed, it)
 			if transientOnly {
 				nSendFailedTransient.Add(1)
@@ -334,6 +339,9 @@ func (w *worker) evalWrite(names []string, stream []*pconn.Item, plan pconn.Plan
 		return &failure{side: "write", clause: clause, class: writeClass(plan), msg: msg,
 			in:   Input{Mode: "write", Stream: names, WPlan: plan.String(), Wire: quote(far)},
 			cost: [3]int{len(plan), len(pconn.Concat(stream)), sumN(plan)}}
+	}
+	if spunAt >= 0 {
+		return mk("send-never-returns", fmt.Sprintf("Send #%d (%s) did not return on a connection that never blocks: it keeps retrying", spunAt, stream[spunAt].Name)), w.wc.WriteLens
 	}
 	if okOnFault >= 0 {
 		return mk("send-ok-on-fault", fmt.Sprintf("Send #%d (%s) returned nil although Write call %d served a hard error / cancelled context",
